@@ -32,6 +32,8 @@ type c18Op struct {
 type c18Plan struct {
 	Table   TablePlan `json:"table"`
 	Ops     []c18Op   `json:"ops"`
+	Ops2    []c18Op   `json:"ops_of_second_admin,omitempty"`
+	Duel    bool      `json:"both_admins_on_one_route,omitempty"`
 	Clients int       `json:"clients"`
 	Lines   int       `json:"lines_per_client"`
 }
@@ -196,6 +198,70 @@ func scenC18(x *Exec) {
 		}
 		p.Ops = append(p.Ops, op)
 	}
+	if duel := g.Bool(0.15); duel {
+		// two admins work on one route at once, without pauses: one on its destinations, the other on its filter
+		var real []RouteSpec
+		for _, r := range tp.Routes {
+			if r.Type != "capture" {
+				real = append(real, r)
+			}
+		}
+		if len(real) > 0 {
+			r := real[g.Pick(len(real))]
+			p.Ops, p.Duel = nil, true
+			for i, n := 0, 4+g.Intn(8); i < n; i++ {
+				op := c18Op{Kind: "modDest", Key: r.Key, Idx: g.Intn(len(r.Dests)), F: genFilter(g, 0.4), Set: []string{filterKeys[g.Pick(6)]}}
+				if r.Type == "consistentHashing" {
+					op.F, op.Set = FilterSpec{}, []string{"prefix"} // hashing destinations carry no filter in this scenario
+				}
+				p.Ops = append(p.Ops, op)
+			}
+		}
+	}
+	if p.Duel || g.Bool(0.4) {
+		// a second admin connection changes route filters at the same time.  It only touches routes the first admin neither
+		// deletes nor re-filters, so every cell of the table still has a single writer and the expected view is determinate;
+		// the first admin may well work on the destinations of the very same routes.
+		taken := map[string]bool{}
+		for _, op := range p.Ops {
+			if op.Kind == "delRoute" || op.Kind == "modRoute" {
+				taken[op.Key] = true
+			}
+		}
+		var free []string
+		for _, r := range tp.Routes {
+			if !taken[r.Key] {
+				free = append(free, r.Key)
+			}
+		}
+		// preferably the routes whose destinations the first admin works on: that is where two changes meet inside one route
+		var hot []string
+		for _, op := range p.Ops {
+			if op.Kind == "modDest" || op.Kind == "addDest" || op.Kind == "delDest" {
+				for _, k := range free {
+					if k == op.Key {
+						hot = append(hot, k)
+					}
+				}
+			}
+		}
+		for i, n := 0, 2+g.Intn(8); i < n && len(free) > 0; i++ {
+			key := free[g.Pick(len(free))]
+			if len(hot) > 0 && g.Bool(0.7) {
+				key = hot[g.Pick(len(hot))]
+			}
+			op := c18Op{Kind: "modRoute", Key: key, F: genFilter(g, 0.4)}
+			for _, k := range filterKeys {
+				if g.Bool(0.35) {
+					op.Set = append(op.Set, k)
+				}
+			}
+			if len(op.Set) == 0 {
+				op.Set = []string{filterKeys[g.Pick(6)]}
+			}
+			p.Ops2 = append(p.Ops2, op)
+		}
+	}
 	p.Clients = 1 + g.Intn(3)
 	p.Lines = 10 + g.Intn(60)
 	x.Out.Sample = p
@@ -239,16 +305,21 @@ func scenC18(x *Exec) {
 		var naggs int
 		seqErr := ""
 
-		// the admin task applies the operations one after the other, with seeded pauses
-		adminDone := false
-		s.Spawn("admin", "admin", "relay1", func() {
-			for _, op := range p.Ops {
-				if g.Bool(0.3) {
+		// an admin task applies its operations one after the other, with seeded pauses.  The model version of an operation is
+		// appended when the operation starts (so that an operation of the other admin that starts meanwhile builds on it); the
+		// stamp records when it started and when it returned.
+		adminsRunning, adminsDone, inflight := 0, 0, 0
+		runAdmin := func(ops []c18Op) {
+			for _, op := range ops {
+				if !p.Duel && g.Bool(0.3) {
 					simrt.Sleep(time.Duration(g.Intn(3000)) * time.Microsecond)
 				}
 				cur := cloneTP(versions[len(versions)-1])
 				clock++
-				st := opStamp{s: clock}
+				versions = append(versions, cur)
+				stamps = append(stamps, opStamp{s: clock, e: 1 << 62})
+				si := len(stamps) - 1
+				inflight++
 				var err error
 				wantErr := false
 				find := func(key string) int {
@@ -261,11 +332,13 @@ func scenC18(x *Exec) {
 				}
 				switch op.Kind {
 				case "addRoute":
+					// (the model is always updated before the first call into relay code: such a call can be preempted, and an
+					// operation of the other admin that starts meanwhile builds on this version)
+					cur.Routes = append(cur.Routes, RouteSpec{Type: "capture", Key: op.Key, F: op.F})
 					m, _ := mkMatcher(op.F)
 					c := &capRoute{key: op.Key, m: &m}
 					caps[op.Key] = c
 					bt.T.AddRoute(c)
-					cur.Routes = append(cur.Routes, RouteSpec{Type: "capture", Key: op.Key, F: op.F})
 				case "delRoute":
 					if i := find(op.Key); i >= 0 {
 						for _, d := range cur.Routes[i].Dests {
@@ -275,9 +348,9 @@ func scenC18(x *Exec) {
 					}
 					err = bt.T.DelRoute(op.Key)
 				case "addBlack":
+					cur.Blacklist = append(cur.Blacklist, op.F)
 					m, _ := mkMatcher(op.F)
 					bt.T.AddBlacklist(&m)
-					cur.Blacklist = append(cur.Blacklist, op.F)
 				case "delBlack":
 					if op.Idx < len(cur.Blacklist) {
 						cur.Blacklist = append(cur.Blacklist[:op.Idx:op.Idx], cur.Blacklist[op.Idx+1:]...)
@@ -286,9 +359,9 @@ func scenC18(x *Exec) {
 					}
 					err = bt.T.DelBlacklist(op.Idx)
 				case "addRw":
+					cur.Rewriters = append(cur.Rewriters, *op.Rw)
 					rw, _ := rewriter.New(op.Rw.Old, op.Rw.New, op.Rw.Not, op.Rw.Max)
 					bt.T.AddRewriter(rw)
-					cur.Rewriters = append(cur.Rewriters, *op.Rw)
 				case "delRw":
 					if op.Idx < len(cur.Rewriters) {
 						cur.Rewriters = append(cur.Rewriters[:op.Idx:op.Idx], cur.Rewriters[op.Idx+1:]...)
@@ -334,6 +407,7 @@ func scenC18(x *Exec) {
 				case "addDest":
 					i := find(op.Key)
 					if i >= 0 && cur.Routes[i].Type != "capture" {
+						cur.Routes[i].Dests = append(cur.Routes[i].Dests, DestSpec{Addr: op.Addr, F: op.F})
 						dm, _ := mkMatcher(op.F)
 						dc := fastDestCfg(op.Addr)
 						dd, derr := dc.build(op.Key, dm)
@@ -354,7 +428,6 @@ func scenC18(x *Exec) {
 							s.Infra("route %s has no Add", op.Key)
 							return
 						}
-						cur.Routes[i].Dests = append(cur.Routes[i].Dests, DestSpec{Addr: op.Addr, F: op.F})
 					}
 				case "addAgg":
 					m, _ := mkMatcher(FilterSpec{Regex: "^zzz-never"})
@@ -371,17 +444,25 @@ func scenC18(x *Exec) {
 					}
 					err = bt.T.DelAggregator(op.Idx)
 				}
-				simrt.Yield("admin-op-returned")
 				clock++
-				st.e = clock
-				stamps = append(stamps, st)
-				versions = append(versions, cur)
+				stamps[si].e = clock
+				inflight--
+				simrt.Yield("admin-op-returned")
 				if (err != nil) != wantErr && seqErr == "" {
 					seqErr = fmt.Sprintf("operation %+v returned error %v, expected error: %v", op, err, wantErr)
 				}
-				// sequential specification: the table view equals the model after every operation
+				// sequential specification: the table view equals the model after every operation (compared whenever no
+				// operation of the other admin is in progress or has started since, so that the expected view is determinate)
+				nv := len(versions)
+				if inflight != 0 {
+					continue
+				}
+				cur = versions[nv-1]
 				snap := bt.T.Snapshot()
 				simrt.Yield("snapshot")
+				if len(versions) != nv || inflight != 0 {
+					continue
+				}
 				if seqErr == "" {
 					seqErr = compareSnapshot(snap.Routes, len(snap.Blacklist), len(snap.Rewriters), len(snap.Aggregators), cur, naggs)
 					if seqErr != "" {
@@ -399,9 +480,16 @@ func scenC18(x *Exec) {
 					}
 				}
 			}
-			adminDone = true
+			adminsDone++
 			cond.Broadcast()
-		})
+		}
+		adminsRunning++
+		s.Spawn("admin", "admin", "relay1", func() { runAdmin(p.Ops) })
+		if len(p.Ops2) > 0 {
+			adminsRunning++
+			s.Spawn("admin2", "admin", "relay1", func() { runAdmin(p.Ops2) })
+			s.Probe("c18.two_admins")
+		}
 
 		type lineRec struct {
 			id        string // unique value token
@@ -433,7 +521,8 @@ func scenC18(x *Exec) {
 				cond.Broadcast()
 			})
 		}
-		if !cond.Wait(func() bool { return fin == p.Clients && adminDone }, time.Now().Add(5*time.Minute)) {
+		adminDone := false
+		if !cond.Wait(func() bool { adminDone = adminsDone == adminsRunning; return fin == p.Clients && adminDone }, time.Now().Add(5*time.Minute)) {
 			var stuck []string
 			for _, r := range recs {
 				if !r.done {
@@ -442,6 +531,14 @@ func scenC18(x *Exec) {
 			}
 			s.Fail(prop+":dispatch-hang", "after 5 simulated minutes %d dispatcher(s) / admin(done=%v) have not returned; lines still inside Dispatch: %v\n%s", p.Clients-fin, adminDone, stuck, s.Describe())
 			return
+		}
+		if seqErr == "" {
+			// with both admins finished the view must be the result of all their operations
+			snap := bt.T.Snapshot()
+			simrt.Yield("snapshot")
+			if d := compareSnapshot(snap.Routes, len(snap.Blacklist), len(snap.Rewriters), len(snap.Aggregators), versions[len(versions)-1], naggs); d != "" {
+				seqErr = "after all operations: " + d
+			}
 		}
 		if seqErr != "" {
 			s.Fail(prop+":table-view", "%s", seqErr)
@@ -509,10 +606,15 @@ func scenC18(x *Exec) {
 		}
 		explained := 0
 		for _, r := range recs {
+			// versions lo..hi are the candidates: every operation up to lo had returned before the hand-off started (with two
+			// admins the returned operations need not form a prefix: only the prefix counts), hi is the last one that had started
 			lo, hi := 0, 0
+			prefix := true
 			for k, st := range stamps {
-				if st.e < r.call {
+				if prefix && st.e < r.call {
 					lo = k + 1
+				} else {
+					prefix = false
 				}
 				if st.s < r.ret {
 					hi = k + 1
